@@ -168,3 +168,15 @@ contract(M, 'dfa_isomorphic1', {'D1': 'DFA', 'D2': 'DFA'}, returns='Bool',
                     'all((D1.delta[(q1, a)] in matching and matching[D1.delta[(q1, a)]] == D2.delta[(q2, a)]) or (D1.delta[(q1, a)], D2.delta[(q2, a)]) in todo for a in doneS)',
                     '(D1.q0 in matching and matching[D1.q0] == D2.q0) or (D1.q0, D2.q0) in todo']}},
          theories=['dfa', 'iso'], props=['C20'], note='partial correctness; termination is checked by the bounded stand-in')
+
+# ---------------------------------------------------------------------------------------------- C15 (DFA trace)
+contract(M, 'dfa_simulate_word', {'D': 'DFA', 'word': 'Word'}, returns='List[(State,Word)]',
+         requires=['dfa_wf(D)', 'over(D.Sigma, word)'],
+         ensures=['len(result) == wlen(word) + 1',
+                  'all(result[t][0] == dhat(D, D.q0, take(t, word)) and result[t][1] == drop(t, word) for t in range(len(result)))',
+                  'result[0][0] == D.q0 and result[0][1] == word',
+                  'result[len(result) - 1][1] == nil() and (result[len(result) - 1][0] in D.F) == dfa_accepts(D, word)'],
+         loops={1: {'invariant': ['k == wlen(prefix)', 'q == dhat(D, D.q0, prefix)', 'q in D.Q', 'len(result) == k + 1',
+                                  'all(result[t][0] == dhat(D, D.q0, take(t, word)) and result[t][1] == drop(t, word) for t in range(len(result)))',
+                                  'prefix == take(k, word)']}},
+         theories=['word', 'wordx', 'dfa'], props=['C15', 'C19'])
